@@ -25,7 +25,18 @@ RULE = ('random template trees (depth <= 4) over table/point/constant/function(p
         'atomic multi-channel, parallel-channel (constant and time dependent), scalar and pulse arithmetic; dyadic '
         'parameter values; for-loop range sweeps over small start/stop/step (thorough tier: exhaustive start -4..4, stop '
         '-4..5, step +-{1,2,3} under 9 loop-carrying wrappers, plus fully symbolic ranges); ArithmeticPT with time '
-        'dependent scalars (+/- embedded in the model, * Python oracle only); a small malformed stream (missing parameter).  Observation: '
+        'dependent scalars (+/- embedded in the model, * over constant/polynomial atoms embedded as the product polynomial, * over '
+        'tables Python oracle only); a small malformed stream (missing parameter); round 3: an ALIASING / HISTORY stream - '
+        'forests of templates that SHARE sub-template objects (one index dependent building block under loops over different '
+        'ranges, a repeated loop, the block alone, the block twice in one sequence / arithmetic atom, mappings that rebind '
+        'the loop index, parallel channels, dict and time dependent scalars; random forests cut out of random trees; thorough: '
+        'every ordered pair of enclosing classes per building block), each replayed with a query history (forward, backward, '
+        'every query twice with pad_to in between, random with create_program) on the shared objects: every answer, every '
+        'dictionary handed out earlier (re-read at the end) and the post-history observation of every root must equal the '
+        'answer of a freshly built unshared copy queried once; deterministic families for parameters as table/point entry '
+        'TIMES (first entry in particular), the longest channel dropped/renamed by a mapping, a mapping that rebinds the '
+        'loop index to an expression of itself, swap/shift/cyclic mappings, parameters called t, declared-empty scalar / '
+        'overwrite dictionaries, the same template twice.  Observation: '
         'integral/initial_values/final_values/duration evaluated exactly (sympy rationals), the real program of '
         'create_program integrated leaf by leaf with an open 3-point rule on a 1/16 grid (exact for piecewise cubics with '
         'breakpoints on the grid; cross-checked on a 1/8 grid), its first and last samples, and the program of '
@@ -39,17 +50,27 @@ TRUSTED = [
     'case by check_corr)',
     'harness: generators, Gallina printers, leaf walker and the open Newton-Cotes integrator over get_sampled output',
     'numpy float arithmetic is exact on the generated dyadic inputs (checked per case: samples must be dyadic, two grids agree)',
-    'the Python oracle (py_spec) for the time-dependent-scalar stream, which has no Coq model',
+    'the Python oracle (py_spec) for time dependent scalars multiplied with TABLE atoms (no Coq model); + and -, and * over '
+    'constant / polynomial atoms are embedded in the model',
+    'the aliasing / history stream compares the real code with itself (shared and queried repeatedly vs freshly built and '
+    'queried once) in Python; the post-history observations additionally go through check_corr / check_spec',
 ]
 ASSUMPTIONS = [
     'the theorems are about templates satisfying Wf.wf (what the constructors of the real classes enforce); check_corr '
     'verifies wf on every generated strict case',
-    'the theorems take "the symbolic value evaluates to a number" as a hypothesis (definedness is not proved)',
+    'definedness (the symbolic value evaluates to a number) is proved under Def.guard_C07_defined: the parts the program '
+    'never instantiates (values of an empty ConstantPT, body of a zero-fold repetition / of a loop over an empty range) '
+    'would be instantiable too and no scalar divisor is 0; without that guard it is a hypothesis of the theorems',
     'function atoms are polynomials in t (degree <= 3); transcendental atoms are not covered',
     'time dependent scalar operands of ArithmeticPT: + and - are embedded in the Coq model (pulse-with-pulse arithmetic with '
-    'a polynomial FunctionPT per scalar channel), * is outside the model (Python-oracle stream), / is not covered; '
+    'a polynomial FunctionPT per scalar channel), * over a ConstantPT / polynomial FunctionPT is embedded as the product '
+    'polynomial (Embed.arith_tm), * over tables is outside the model (Python-oracle stream), / is not covered; '
     'measurements/constraints are outside the model',
-    'loop index names are distinct from parameter names and from each other (no capture in sympy.subs)',
+    'the model substitutes capture free (ELet evaluates bindings in the outer environment); sympy.subs into a ForLoopPT '
+    'Sum(...) is not: a MappingPT that maps a parameter to an expression naming an inner loop index is the known finding '
+    'mapping-captures-loop-index (generated on purpose; excluded from nothing, classified by mapping_captures)',
+    'the object discipline of Hist.v (which dictionary object a query returns / rewrites) is hand-written from the source; '
+    'its tie to the code is the aliasing / history stream',
     'the end voltage of a table/point pulse is the value of its last entry (for a trailing hold step that level is '
     'specified but not played for a positive time)',
 ]
@@ -737,12 +758,57 @@ def _still_fails(case, ctx, counter):
     return obs if res[CHECK_SPEC] else None
 
 
+def _shrink_forest(case, obs):
+    """a case of the aliasing / history stream: drop the other roots and the history steps that are not needed for the
+    target's answers to depend on the history (every candidate is re-run on the real code)"""
+    import time
+    if not obs.get('hist_mismatch'):
+        return case, obs
+    t0, runs = time.time(), 0
+    best, best_obs = case, obs
+
+    def attempt(forest, target):
+        nonlocal runs
+        if runs >= 40 or time.time() - t0 > 90:
+            return None
+        runs += 1
+        cand = dict(best, forest=forest, target=target, src='shrunk-' + case.get('src', 'forest'))
+        try:
+            o = run_impl(cand)
+        except Exception:
+            return None
+        return (cand, o) if o.get('hist_mismatch') else None
+    progress = True
+    while progress:
+        progress = False
+        f, tgt = best['forest'], best['target']
+        for j in range(len(f['roots'])):                      # drop a root that is not the target
+            if j == tgt or len(f['roots']) < 2:
+                continue
+            roots = f['roots'][:j] + f['roots'][j + 1:]
+            hist = [[r - (r > j), q] for r, q in f['history'] if r != j]
+            got = attempt(dict(f, roots=roots, history=hist), tgt - (tgt > j))
+            if got:
+                best, best_obs, progress = got[0], got[1], True
+                break
+        if progress:
+            continue
+        for k in reversed(range(len(f['history']))):          # drop one history step
+            got = attempt(dict(f, history=f['history'][:k] + f['history'][k + 1:]), tgt)
+            if got:
+                best, best_obs, progress = got[0], got[1], True
+                break
+    return best, best_obs
+
+
 def shrink(case, obs, ctx):
     """greedy structural shrinking of a case on which the property fails (the failure is re-established on the real
     code for every candidate: Python oracle first, the Coq specification oracle otherwise)"""
     import time
     if case.get('kind') not in ('pulse', 'tdarith'):
         return case, obs
+    if 'forest' in case:
+        return _shrink_forest(case, obs)
     counter = {'n': 0, 't0': time.time()}
     best, best_obs = case, obs
     progress = True
@@ -765,29 +831,31 @@ def shrink(case, obs, ctx):
 
 
 MANIFEST = {
-    'level_text': 'Full proof (modulo stated hypotheses) + exact correspondence. Proved in Coq (unbounded, axiom free, '
-                  'one induction over all 13 template classes each): C07_duration (symbolic duration == total length of '
-                  'the denoted pulse), C07_integral (symbolic integral == exact integral of the denoted pulse: every '
-                  'tree, environment, channel, range shape; no guard), C07_initial_guarded and C07_final_guarded '
-                  '(initial/final value == voltage at time 0 / specified end voltage) under one executable guard per '
-                  'remaining end-point finding (initial-head-empty-or-jump, final-tail-empty), each with a refutation '
-                  'witness and a non-vacuity example; pad_to denotes the pulse followed by a constant piece holding '
-                  'final_values.  Hypotheses: Wf.wf p (what the real constructors enforce; checked on every generated '
-                  'case), the template is instantiable (denote = Some), and the symbolic value evaluates to a number '
-                  '(definedness is not proved).  ForLoopPT.final_values was repaired in /repo (1b7d0bd): the loop guard '
-                  'of round 1 is gone, C07_final_index_correct proves the new index for every range, '
-                  'C07_floor_guard_exact characterises exactly what the old form got wrong.  Every generated template '
-                  'is evaluated on the real code (symbolic dictionaries exactly, the instantiated program integrated '
-                  'exactly leaf by leaf, padded program sampled) and compared inside Coq with the mirrored model and '
-                  'the denotation; the classifier of known findings is cross-checked against the proven guards.',
+    'level_text': 'Full proof + exact correspondence. Proved in Coq (unbounded, axiom free, one induction over all 13 '
+                  'template classes each): C07_duration, C07_integral (no guard), C07_initial_guarded / C07_final_guarded '
+                  '(one executable guard per remaining end-point finding, each with refutation witness and non-vacuity '
+                  'example), pad_to holds final_values; round 3: C07_definedness (under Def.guard_C07_defined every symbolic '
+                  'quantity of an instantiable template EVALUATES; refutation witness per guard clause) and with it the '
+                  'total statements C07_{duration,integral,initial,final}_total; C07_history_independent / C07_query_pure '
+                  '(Hist.v models which dictionary OBJECT each class returns, hands through or rewrites in place: every '
+                  'answer after any query history on any templates is quant q p and no older dictionary is written to) '
+                  'with C07_cached_const_history_dependent (a memoising ConstantPT, seed C07-4, breaks it); '
+                  'C07_scalar_product_{const,func} (time dependent multiplicative scalars over constant / polynomial atoms '
+                  'are embedded as the product polynomial).  Hypotheses: Wf.wf p (checked on every generated case), the '
+                  'template is instantiable (denote = Some).  Every generated template - single templates and forests '
+                  'sharing sub-template objects under query histories - is evaluated on the real code (symbolic '
+                  'dictionaries exactly, the instantiated program integrated exactly leaf by leaf, padded program '
+                  'sampled) and compared inside Coq with the mirrored model and the denotation; history answers are '
+                  'compared with freshly built copies; the classifier of known findings is cross-checked against the '
+                  'proven guards.',
     'level_note': 'Trusted: Coq kernel, sympy evaluation of Sum/Max/ceiling/floor/sign/Piecewise/subs/integrate '
-                  '(modelled semantically, validated per case), harness integrator and generators, the Python oracle of '
-                  'the multiplicative part of the time-dependent-scalar stream (not modelled in Coq). Five known deviations of the unchanged code '
-                  'are listed as known findings (initial-head-empty-or-jump, final-tail-empty, '
-                  'table-constant-detection, arith-over-parallel-order, negative-duration-empty); five defects were '
-                  'repaired in /repo (empty-range integral, bare sympy integral of ArithmeticPT, time dependent '
-                  'ParallelChannelPT, ForLoopPT.final_values floor index, time dependent scalar in '
-                  'ArithmeticPT.initial_values/final_values).',
+                  '(modelled semantically, validated per case), harness integrator and generators, the Python oracle for '
+                  'time dependent scalars multiplied with table atoms (not modelled in Coq), the hand-written object '
+                  'discipline of Hist.v. Six known deviations of the unchanged code are listed as known findings '
+                  '(initial-head-empty-or-jump, final-tail-empty, table-constant-detection, arith-over-parallel-order, '
+                  'negative-duration-empty, and new in round 3 mapping-captures-loop-index: sympy.subs of a mapping into '
+                  'a loop\'s Sum(...) captures a name equal to the loop index); five defects were repaired in /repo in '
+                  'rounds 1-2.',
     'technique': 'Coq proof over a hand-written model + exact correspondence check against the real instantiated pulse',
     'design_ref': 'DESIGN.md §5 C07',
 }
